@@ -11,28 +11,217 @@ def _c12_case(c):
     return {"raw": c}
 
 
+# ---------------------------------------------------------------------------
+# A sample of the correspondence cases is re-evaluated INSIDE Coq with vm_compute and compared
+# with what the extracted OCaml runner printed (model.txt): cross-checks the extraction and the
+# OCaml driver against the Gallina definitions the theorems are about (not the implementation).
+_VM_PRELUDE = """From Coq Require Import List NArith Bool.
+Import ListNotations.
+From Oras Require Import Base.Prelude Model.TarRoundTrip.
+Open Scope N_scope.
+Definition vm_cls (r : res fs) : nat :=
+  match r with
+  | Ok _ => 0 | Err XOutside => 1 | Err XDigest => 2 | Err XAbsLink => 3 | Err XWriteThrough => 3 | Err _ => 4
+  end%nat.
+Definition vm_hyp (t : tree) : bool := is_dir t && wf_treeb t && modes_okb t && benign_tree t.
+(* the listing printed by the runner: every listed path has the listed node, nothing else is bound *)
+Definition vm_listing (r : res fs) (l : list (path * node)) : bool :=
+  match r with
+  | Ok f =>
+      forallb (fun pn => match fs_lookup f (fst pn), snd pn with
+                         | Some (NFile c m), NFile c' m' => str_eqb c c' && (m =? m')
+                         | Some (NDir m), NDir m' => m =? m'
+                         | Some (NLink g), NLink g' => str_eqb g g'
+                         | _, _ => false
+                         end) l &&
+      forallb (fun qn => existsb (fun pn => path_eqb (fst qn) (fst pn)) l) f
+  | Err _ => false
+  end.
+"""
+
+
+def _vm_str(h):
+    if h == "-" or h == "":
+        return "(@nil N)"
+    return "[" + "; ".join(str(x) for x in bytes.fromhex(h)) + "]"
+
+
+def _vm_path(tok):
+    if tok in (".", "", "-"):
+        return "(@nil (list N))"
+    return "[" + "; ".join(_vm_str(c) for c in tok.split("/") if c != "") + "]"
+
+
+def _vm_tree(toks, i):
+    k = toks[i]
+    if k == "F":
+        return "(File %s %s %s)" % (_vm_str(toks[i + 3]), toks[i + 1], toks[i + 2]), i + 4
+    if k == "L":
+        return "(Link %s %s)" % (_vm_str(toks[i + 2]), toks[i + 1]), i + 3
+    if k == "D":
+        n = int(toks[i + 3])
+        j = i + 4
+        kids = []
+        for _ in range(n):
+            nm = toks[j]
+            sub, j = _vm_tree(toks, j + 1)
+            kids.append("(%s, %s)" % (_vm_str(nm), sub))
+        ch = "(@nil (list N * tree))" if not kids else "[" + "; ".join(kids) + "]"
+        return "(Dir %s %s %s)" % (toks[i + 1], toks[i + 2], ch), j
+    raise ValueError("tree token " + k)
+
+
+def _vm_bool(t):
+    return "true" if t == "1" else "false"
+
+
+def _vm_pairs(tok):
+    if tok in ("-", ""):
+        return "(@nil (list N * nat))"
+    out = []
+    for x in tok.split(","):
+        nm, d = x.split(":")
+        out.append("(%s, %s%%nat)" % (_vm_str(nm), d))
+    return "[" + "; ".join(out) + "]"
+
+
+def _vm_goal(case, out):
+    toks = [t for t in case.split(" ") if t and not t.startswith("#")]
+    k = toks[0]
+    if k == "T" and out.startswith("ENT "):
+        t, _ = _vm_tree(toks, 3)
+        ents = []
+        for e in out[4:].split(","):
+            nm, typ, mode, mt, payload, _ids = e.split(":")
+            kind = {"f": "(EReg %s)" % _vm_str(payload), "d": "EDir", "l": "(ELnk %s)" % _vm_str(payload)}[typ]
+            ents.append("mkEntry %s %s %d %s" % (_vm_path(nm), kind, int(mode, 8), mt))
+        return "tar_entries %s %s %s\n  = [%s]" % (_vm_path(toks[2]), _vm_bool(toks[1]), t, ";\n     ".join(ents))
+    if k == "X":
+        t, _ = _vm_tree(toks, 4)
+        call = "extract %s %s %s (tar_entries %s false %s)" % (_vm_path(toks[3]), toks[1], _vm_bool(toks[2]), _vm_path(toks[3]), t)
+        if out.startswith("UNJUDGED"):
+            return "vm_cls (%s) = 3%%nat" % call
+        hyp, _, rest = out.partition(" ")
+        hb = "true" if hyp == "B1" else "false"
+        if rest.startswith("OK "):
+            items = []
+            for it in rest[3:].split(","):
+                pth, typ, mode, payload = it.split(":")
+                node = {"f": lambda: "NFile %s %d" % (_vm_str(payload), int(mode, 8)),
+                        "d": lambda: "NDir %d" % int(mode, 8),
+                        "l": lambda: "NLink %s" % _vm_str(payload)}[typ]()
+                items.append("(%s, %s)" % (_vm_path(pth), node))
+            return "(vm_hyp %s, vm_listing (%s)\n   [%s]) = (%s, true)" % (t, call, ";\n    ".join(items), hb)
+        cls = {"ERR outside": 1, "ERR digest": 2, "ERR reject": 4}[rest]
+        return "(vm_hyp %s, vm_cls (%s)) = (%s, %d%%nat)" % (t, call, hb, cls)
+    if k == "E":
+        n = int(toks[4])
+        ents = []
+        for j in range(n):
+            nm, typ, mode, payload = toks[5 + 4 * j:9 + 4 * j]
+            kind = {"f": "(EReg %s)" % _vm_str(payload), "d": "EDir", "l": "(ELnk %s)" % _vm_str(payload)}[typ]
+            ents.append("mkEntry %s %s %s 0" % (_vm_path(nm), kind, mode))
+        el = "[" + ";\n     ".join(ents) + "]" if ents else "(@nil entry)"
+        call = "extract %s %s %s\n    %s" % (_vm_path(toks[3]), toks[1], _vm_bool(toks[2]), el)
+        if out.startswith("UNJUDGED"):
+            return "vm_cls (%s) = 3%%nat" % call
+        if out.startswith("OK "):
+            items = []
+            for it in out[3:].split(","):
+                pth, typ, mode, payload = it.split(":")
+                node = {"f": lambda: "NFile %s %d" % (_vm_str(payload), int(mode, 8)),
+                        "d": lambda: "NDir %d" % int(mode, 8),
+                        "l": lambda: "NLink %s" % _vm_str(payload)}[typ]()
+                items.append("(%s, %s)" % (_vm_path(pth), node))
+            return "vm_listing (%s)\n   [%s] = true" % (call, ";\n    ".join(items))
+        return "vm_cls (%s) = %d%%nat" % (call, {"ERR outside": 1, "ERR digest": 2, "ERR reject": 4}[out])
+    if k == "P" and out == "EQ":
+        ta, j = _vm_tree(toks, 3)
+        tb, _ = _vm_tree(toks, j + 1)
+        return "tar_entries %s %s %s\n  = tar_entries %s %s %s" % (_vm_path(toks[2]), _vm_bool(toks[1]), ta, _vm_path(toks[2]), _vm_bool(toks[1]), tb)
+    if k == "M" and out.startswith("NAMES"):
+        names = [x for x in out[6:].split(",") if x]
+        nm = "[" + "; ".join(_vm_str(x.split(":")[0]) for x in names) + "]" if names else "(@nil (list N))"
+        ids = "[" + "; ".join("Some %s%%nat" % x.split(":")[1] for x in names) + "]" if names else "(@nil (option nat))"
+        return ("let s := copy_into %s %s %s %s in\n  (map (name_lookup (s_names s)) %s, length (s_names s)) = (%s, %d%%nat)"
+                % (_vm_bool(toks[1]), _vm_bool(toks[2]), _vm_pairs(toks[3]), _vm_pairs(toks[4]), nm, ids, len(names)))
+    return None
+
+
+def _c12_vm_sample(d, tier, coq, build):
+    import os, subprocess, collections
+    quota = {"T": 80, "X": 120, "P": 30, "M": 60, "E": 60} if tier == "thorough" else {"T": 8, "X": 14, "P": 4, "M": 6, "E": 8}
+    outs = {}
+    with open(os.path.join(d, "model.txt")) as f:
+        for l in f:
+            i, _, o = l.rstrip("\n").partition(" ")
+            outs[i] = o
+    total, got, stride = collections.Counter(), collections.Counter(), collections.Counter()
+
+    def eligible(c):
+        k = c.split(" ", 1)[0]
+        return k if k in quota and len(c) < 9000 else None
+    with open(os.path.join(d, "cases.txt")) as f:
+        for l in f:
+            k = eligible(l.rstrip("\n").partition(" ")[2])
+            if k:
+                total[k] += 1
+    goals = []
+    with open(os.path.join(d, "cases.txt")) as f:
+        for l in f:
+            i, _, c = l.rstrip("\n").partition(" ")
+            k = eligible(c)
+            if not k or got[k] >= quota[k] or i not in outs:
+                continue
+            stride[k] += 1
+            if (stride[k] - 1) % max(1, total[k] // quota[k]) != 0:
+                continue
+            g = _vm_goal(c, outs[i])
+            if g:
+                got[k] += 1
+                goals.append((i, g))
+    vdir = os.path.join(build, "vm")
+    os.makedirs(vdir, exist_ok=True)
+    vf = os.path.join(vdir, "C12_cases.v")
+    with open(vf, "w") as f:
+        f.write(_VM_PRELUDE)
+        for i, g in goals:
+            f.write("\n(* %s *)\nGoal %s.\nProof. vm_compute. reflexivity. Qed.\n" % (i, g))
+    p = subprocess.run(["coqc", "-R", coq, "Oras", "-w", "-notation-overridden", vf], cwd=vdir, timeout=1500,
+                       stdout=subprocess.PIPE, stderr=subprocess.STDOUT, text=True)
+    with open(os.path.join(d, "vm_sample.txt"), "w") as f:
+        f.write("%d goals %s rc=%d\n%s" % (len(goals), dict(got), p.returncode, p.stdout[-3000:]))
+    if p.returncode != 0:
+        return ["vm_compute re-evaluation of %d sampled cases inside Coq disagrees with the extracted runner (or does not type-check): %s"
+                % (len(goals), p.stdout[-1200:])]
+    if len(goals) < sum(quota.values()) // 3:
+        return ["vm_compute sample too small: %d goals" % len(goals)]
+    return []
+
+
 CONFIG = {
     "properties_file": "Properties/C12.v",
-    "proof_files": ["Base/Prelude.v", "Proofs/TarRoundTrip.v", "Proofs/TarWalkOrder.v", "Proofs/TarListingOrder.v"],
+    "proof_files": ["Base/Prelude.v", "Proofs/TarRoundTrip.v", "Proofs/TarWalkOrder.v", "Proofs/TarListingOrder.v", "Proofs/TarRootMode.v"],
     "model_files": ["Generated/GC12.v", "Model/TarRoundTrip.v", "Model/FileAnnotations.v"],
     "extract": "XC12.v",
     "ml_main": "c12_main.ml",
     "harness": "c12",
     "case_to_replay": _c12_case,
+    "post_model": _c12_vm_sample,
     "timeout_quick": 600,
     "timeout_thorough": 3000,
     "assumptions": [
         "archive/tar and compress/gzip byte encodings are Section variables enc/dec/gz/gunz with the hypotheses dec (enc es) = Some es and gunz (gz s) = Some s; the digest is a Section variable H with a decidable equality (no collision-freeness is needed by the theorems; the reproducibility theorem concludes equality of entry lists, hence of bytes and digests)",
         "paths are lists of components; filepath.Join/Clean/Rel/ToSlash on the clean relative names that tarDirectory produces = list append / strip_prefix / lexnorm (hand-modelled; compared with the implementation on every generated tree, including '.', '..', '//' and trailing-slash link targets)",
         "filepath.Walk = pre-order with byte-wise sorted children (sort_tree); os.MkdirAll/OpenFile/Symlink/Chmod/umask = mkdir_all/fs_set/create_mode/chmod_mode on a path->node map (kernel semantics modelled, root user, Linux: open honours 07777, mkdir 01777, chmod via os.FileMode(header.Mode) only 0777)",
-        "hypotheses of the round-trip theorems: distinct names per directory, modes within 07777 (files) / 01777 (directories: mkdir(2) drops setuid/setgid), symlink targets relative, lexically inside the directory and passing neither through another symlink of the tree nor through a regular file (benign_tree: resolveRelToBase rejects the former by design and the latter with ENOTDIR, both depending on extraction order; the model mirrors the order dependence and is compared on such trees, the oracle judges only benign ones); absolute targets and out-and-back-in targets are outside the model (XAbsLink = unjudged); extraction escapes F10/F11 belong to C11",
+        "hypotheses of the round-trip theorems: distinct names per directory, modes within 07777 (files) / 01777 (directories: mkdir(2) drops setuid/setgid), symlink targets relative, lexically inside the directory and passing neither through another symlink of the tree nor through a regular file (benign_tree: resolveRelToBase rejects the former by design and the latter with ENOTDIR, both depending on extraction order; the model mirrors the order dependence and is compared on such trees, the oracle judges only benign ones); absolute targets and out-and-back-in targets are outside the model (XAbsLink = unjudged); the umask is within 0777 for the full-strength theorems (the kernel keeps no other bits; by a vm_compute sweep over 1024 directory modes x 512 umasks); extraction escapes belong to C11",
         "the mode of a top-level plain file is not carried by a blob descriptor at all (no tar): for plain files the theorems and the oracle speak of bytes only",
         "each added name is restored into its own directory: the round-trip theorem is per item and the generator keeps the names of one scenario relative, clean and not nested in each other (names with '..', absolute names and overlapping names are C11's subject)",
         "which of several same-content layers oras.Copy pushes is scheduling: the theorem quantifies over every pushed subset/order; in the correspondence the recorded sequence of successful named pushes is the model's input",
         "devices, fifos, xattrs, times of restored files, setuid/setgid directories and sizes above ~2.5 MiB are not exercised; the remote intermediate store is registry/remote.Repository against an in-memory registry of the harness over loopback HTTP (monolithic uploads only); hard links are exercised (Add treats them as regular files)",
     ],
-    "level_text": "Coq theorems for all directory trees (any nesting, names, contents, child order, umask, both PreservePermissions settings): extractTarDirectory applied to the entry list written by tarDirectory never fails and yields exactly the source tree as a path->node map (same paths, bytes, link targets, modes minus umask or exact), proved by tree induction with a frame invariant; invariance under filepath.Walk's sorting; descriptor digest/size/recorded tar digest and their verification on unpack; reproducible tars depend only on the tree without timestamps; after any subset/order of layer pushes covering every content, the manifest push materialises every name (restoreDuplicates), not under ForceCAS; refuted statements kept as theorems with witnesses (the directory's own mode without PreservePermissions on the current code; the pre-fix IgnoreNoName and PreservePermissions behaviours). Tied to content/file by a differential run Add -> PackManifest -> Copy -> memory / OCI layout / remote repository -> Copy -> second file store on generated trees (decoded tar headers, restored listings, descriptor equality, pushed/materialised names, tampered descriptors) and an independent oracle on the generator's own tree",
-    "level_note": "full at entry-list level; tar/gzip bytes, the digest, filepath.Walk and the kernel file system are modelled, not verified; one known finding (root-mode: the added directory itself gets 0777 minus umask without PreservePermissions) is reported as KNOWN-FINDING and carried explicitly by the proved statement (expected_impl) next to its refutation; two defects found by the check are fixed in the repository (IgnoreNoName dropped same-content files; PreservePermissions lost setuid/setgid/sticky), their pre-fix models are kept as refuted theorems",
+    "level_text": "Coq theorems for all directory trees (any nesting, names, contents, child order, any umask within 0777, both PreservePermissions settings): extractTarDirectory applied to the entry list written by tarDirectory never fails and yields exactly the source tree as a path->node map -- the directory itself included (same paths, bytes, link targets, modes minus umask or exact, nothing else), proved by tree induction with a frame invariant plus a finite sweep for the base directory's mode; invariance under filepath.Walk's sorting and under the listing order of every directory; descriptor digest/size/recorded tar digest and their verification on unpack; plain files; reproducible tars depend only on the tree without timestamps; after any subset/order of layer pushes covering every content, the manifest push materialises every name (restoreDuplicates, also with IgnoreNoName), not under ForceCAS; the three pre-fix behaviours found by this check are kept as refuted theorems about *_prefix models. Tied to content/file by a differential run Add -> PackManifest -> Copy -> memory / OCI layout / remote repository -> Copy -> second file store on generated trees (decoded tar headers, restored listings, descriptor equality, pushed/materialised names, tampered descriptors, re-ordered foreign archives), an exhaustive small scope, an independent oracle on the generator's own tree and an in-Coq vm_compute re-evaluation of sampled cases",
+    "level_note": "full at entry-list level; tar/gzip bytes, the digest, filepath.Walk and the kernel file system (root user, Linux) are modelled, not verified; three defects found by the check are fixed in the repository (IgnoreNoName dropped same-content files; PreservePermissions lost setuid/setgid/sticky; the directory's own mode was lost without PreservePermissions), their pre-fix models are kept as refuted theorems; no known findings remain",
     "technique": "machine-checked proof in Coq (tree induction, frame invariant over a path->node map, permutation invariance, induction over push sequences) + translator-regenerated annotation keys + model/implementation correspondence + independent oracle",
-    "explanation": "theorems over all trees/umasks/options about the model of tarDirectory/descriptorFromDir/pushDir/extractTarDirectory/restoreDuplicates; the extracted model and the real file store are run on the same generated scenarios and their tar entry lists, restored listings, descriptor-equality verdicts, materialised names and unpack verdicts are diffed; the oracle compares source and restored trees directly",
+    "explanation": "theorems over all trees/umasks/options about the model of tarDirectory/descriptorFromDir/pushDir/extractTarDirectory/restoreDuplicates; the extracted model and the real file store are run on the same generated scenarios (every intermediate store x SkipUnpack x ForceCAS x IgnoreNoName combination in every run) and their tar entry lists, restored listings, descriptor-equality verdicts, materialised names, unpack verdicts and extractions of re-ordered archives are diffed; the oracle compares source and restored trees directly (via Copy and via a direct Push) and separates restore-failed-* from restored-differently signatures; a sample of the cases is re-evaluated inside Coq with vm_compute (post_model hook)",
 }
